@@ -151,7 +151,7 @@ def build_kwargs(txt, hosts=None, schemes=None):
     )
 
 
-def program(txt=None, hosts=None, max_ops=3, encoded_ctor=False, with_join=True, schemes=None):
+def program(txt=None, hosts=None, max_ops=3, encoded_ctor=False, with_join=True, schemes=None, enc_mixed_case=False):
     if txt is None:
         txt = gen.text(max_tokens=5)
     ctors = [
@@ -161,12 +161,12 @@ def program(txt=None, hosts=None, max_ops=3, encoded_ctor=False, with_join=True,
     ]
     if encoded_ctor:
         ctors.append(gen.url_string(txt, hosts=hosts, schemes=schemes).map(lambda s: ["enc", s]))
-        ctors.append(st.tuples(gen.scheme(mixed_case=False), st.one_of(st.just(""), gen.host_text(idn=False)), txt.map(lambda s: "/" + s), txt, txt).map(lambda t: ["split", list(t)]))
+        ctors.append(st.tuples(gen.scheme(mixed_case=enc_mixed_case), st.one_of(st.just(""), gen.host_text(idn=False)), txt.map(lambda s: "/" + s), txt, txt).map(lambda t: ["split", list(t)]))
         ctors.append(gen.url_string(txt, hosts=hosts, schemes=schemes).map(lambda s: ["self", s]))
         enc_txt = st.sampled_from(["", "a", "a%20b", "%41", "x/y", "p%3Aq"])
-        ctors.append(st.fixed_dictionaries({"scheme": gen.scheme(mixed_case=False), "host": st.sampled_from(["h.example", "[::1]", "[fe80::1%25eth0]", "[v1.x]", "127.0.0.1", "H.Example", ""])},
+        ctors.append(st.fixed_dictionaries({"scheme": gen.scheme(mixed_case=enc_mixed_case), "host": st.sampled_from(["h.example", "[::1]", "[fe80::1%25eth0]", "[v1.x]", "127.0.0.1", "H.Example", ""])},
                                            optional={"user": st.one_of(st.none(), enc_txt), "password": st.one_of(st.none(), enc_txt), "port": gen.port(), "path": enc_txt.map(lambda s: "/" + s),
                                                      "query_string": enc_txt, "fragment": enc_txt}).map(lambda kw: ["build_enc", kw]))
-        ctors.append(st.tuples(gen.scheme(mixed_case=False), st.sampled_from(["h:81", "u:p@[::1]:8080", "[v1.x]", ":81", "u@", "H", "h:080"]), enc_txt.map(lambda s: "/" + s)).map(
+        ctors.append(st.tuples(gen.scheme(mixed_case=enc_mixed_case), st.sampled_from(["h:81", "u:p@[::1]:8080", "[v1.x]", ":81", "u@", "H", "h:080"]), enc_txt.map(lambda s: "/" + s)).map(
             lambda t: ["build_enc", {"scheme": t[0], "authority": t[1], "path": t[2]}]))
     return st.fixed_dictionaries({"ctor": st.one_of(*ctors), "ops": st.lists(op(txt, hosts, with_join), max_size=max_ops)})
